@@ -92,7 +92,11 @@ MapSeq(f(_), s) == [j \in DOMAIN s |-> f(s[j])]
 Repeat(v, n) == [j \in 1 .. n |-> v]
 
 \* ------------------------------------------------------------------ the six commands
-Cmd0(S, c) == PushWrap(S, S.cur, RInt(c.h * c.d))                       \* 형: push h*d
+\* the count a command's area compares and labels with: syllables x dots.  (A renumbered command
+\* of the optimiser carries it separately, as OptCode.area_count does.)
+AreaCount(c) == IF "cnt" \in DOMAIN c THEN c.cnt ELSE c.h * c.d
+
+Cmd0(S, c) == PushWrap(S, S.cur, RInt(AreaCount(c)))                    \* 형: push h*d
 Cmd1(S, c) == LET r == PopN(S, S.cur, c.h) IN PushWrap(r[1], c.d, SumOf(r[2]))    \* 항: add
 Cmd2(S, c) == LET r == PopN(S, S.cur, c.h) IN PushWrap(r[1], c.d, ProdOf(r[2]))   \* 핫: multiply
 Cmd3(S, c) == LET r  == PopN(S, S.cur, c.h)                              \* 흣: negate in place, sum
@@ -135,8 +139,8 @@ Jump(S, at, cnt, t) ==
 Step(S, prog) ==
   LET c  == prog[S.pc + 1]
       S1 == Exec(S, c)
-      ar == EvalArea(S1, c.a, c.h * c.d)
-  IN IF ar[1].status # "run" THEN ar[1] ELSE Jump(ar[1], S.pc, c.h * c.d, ar[2])
+      ar == EvalArea(S1, c.a, AreaCount(c))
+  IN IF ar[1].status # "run" THEN ar[1] ELSE Jump(ar[1], S.pc, AreaCount(c), ar[2])
 
 \* ------------------------------------------------------------------ whole runs
 RECURSIVE SplitLines(_,_)
